@@ -136,6 +136,13 @@ func runDateCase(rq *request) M {
 		return ev
 	}
 	ev["src"] = cps(src)
+	if w, ok := f["warm"]; ok {
+		// another call made first in the same process: what it leaves behind must not change this one
+		if we, werr, wp := safeCompile(cpsToString(w)); werr == nil && wp == nil {
+			safeEval(we, nil)
+		}
+		ev["warm"] = w
+	}
 	e, cerr, cp := safeCompile(src)
 	if cp != nil {
 		ev["out"] = M{"o": "panic", "site": cp.site, "msg": cp.msg}
